@@ -6205,7 +6205,7 @@ void Tokenizer::dump(std::ostream &out) const
         if (tok->isExternC())
             outs += " externLang=\"C\"";
         if (tok->isExpandedMacro())
-            outs += " macroName=\"" + tok->getMacroName() + "\"";
+            outs += " macroName=\"" + ErrorLogger::toxml(tok->getMacroName()) + "\"";
         if (tok->isTemplateArg()) {
             outs += " isTemplateArg=\"true\"";
             outs += " templateArgFileIndex=\"" + std::to_string(tok->templateArgFileIndex()) + "\"";
@@ -6297,7 +6297,7 @@ void Tokenizer::dump(std::ostream &out) const
         }
         if (!tok->originalName().empty()) {
             outs += " originalName=\"";
-            outs += tok->originalName();
+            outs += ErrorLogger::toxml(tok->originalName());
             outs += '\"';
         }
         if (tok->valueType()) {
@@ -6351,7 +6351,7 @@ void Tokenizer::dump(std::ostream &out) const
                 if (fp.second.yield != Library::Container::Yield::NO_YIELD)
                     yield = " yield=\"" + Library::Container::toString(fp.second.yield) + "\"";
                 if (!action.empty() || !yield.empty())
-                    outs += "      <f name=\"" + fp.first + "\"" + action + yield + "/>\n";
+                    outs += "      <f name=\"" + ErrorLogger::toxml(fp.first) + "\"" + action + yield + "/>\n";
             }
             outs += "    </container>\n";
         }
@@ -6386,12 +6386,12 @@ std::string Tokenizer::dumpTypedefInfo() const
         outs += "    <info";
 
         outs += " name=\"";
-        outs += typedefInfo.name;
+        outs += ErrorLogger::toxml(typedefInfo.name);
         outs += "\"";
 
         if (!typedefInfo.originalName.empty()) {
             outs += " originalName=\"";
-            outs += typedefInfo.originalName;
+            outs += ErrorLogger::toxml(typedefInfo.originalName);
             outs += "\"";
         }
 
